@@ -202,6 +202,12 @@ def gen_kind(rng, keys, which=None):
             a = a[:rng.below(len(a) + 1)]
         return ("pfx", a)
     b = gen_query_key(rng, keys)
+    if rng.chance(1, 5):
+        # one bound a proper prefix of the other (scan from a prefix to prefix + suffix; the harness passes both out of one buffer)
+        b = a + bytes(rng.pick([0x00, 0x61, 0x7a, 0xff]) for _ in range(rng.pick([1, 2, 4])))
+        if rng.chance(1, 6):
+            a, b = b, a
+        return ("range", a, b)
     if rng.chance(3, 4) and a > b:
         a, b = b, a
     return ("range", a, b)
@@ -654,7 +660,7 @@ def tok(si, ei):
     return bytes([0x40 + si, ei & 0xff])
 
 
-def gen_merger_case(rng, stats, focus="C04"):
+def gen_merger_case(rng, stats, focus="C04", force_write=False):
     heap_stress = rng.chance(1, 4)
     ns = rng.pick([7, 8, 9, 10, 12, 15]) if heap_stress else rng.pick([0, 1, 2, 2, 3, 3, 4, 6])
     universe = gen_keys(rng, rng.pick([12, 16, 24]) if heap_stress else rng.pick([1, 3, 6, 10, 16]), stats, long_ok=False)
@@ -739,7 +745,7 @@ def gen_merger_case(rng, stats, focus="C04"):
         # the same tables through the mtbl_merge tool built from the tree, with a test DSO holding the same merge function
         lines.append("m.tool 1 c=%s b=%d%s" % (rng.pick(["none", "zlib", "snappy", "lz4", "zstd", "lz4hc"]), rng.pick([1024, 1024, 4096, 8192]),
                                                rng.pick(["", "", " t=0", " t=2"]))); stats.bump("merger_mtbl_merge_tool")
-    if mode != "fail" and rng.chance(1, 3):
+    if mode != "fail" and (rng.chance(1, 3) or force_write):
         # the same content through mtbl_source_write into a fresh table (bytes compared with the writer model)
         lines.append("m.write 1 bs=%d ri=%d" % (rng.pick([16, 32, 64, 200]), rng.pick([1, 2, 3]))); stats.bump("merger_source_write")
     iid = 11
